@@ -4,4 +4,4 @@ from vlib.checks import loops
 
 def run(ctx):
     loops.model(ctx)
-    loops.run_profiles(ctx, ["c10"], 1500, 20000, "c10")
+    loops.run_profiles(ctx, ["c10"], 1500, 8000, "c10")
